@@ -17,3 +17,8 @@ package httppeeridauth
 //@ callsite Run#0 requires hs.Hostname == r.Host && hs.PrivKey == a.PrivKey && hs.TokenTTL == a.TokenTTL && hs.Hmac == hmac
 //@ ensures ncalls(next, 0) <= 1
 //@ noframe
+//@ closure 0
+//@ ensures old(a.HmacKey) == nil ==> called(Read, 0) && ret(Read, 0, 1) == nil && len(arg(Read, 0, 0)) == 32 && a.HmacKey == arg(Read, 0, 0)
+//@ ensures old(a.HmacKey) != nil ==> a.HmacKey == old(a.HmacKey)
+//@ callsite newHmacPool#0 requires arg0 == a.HmacKey
+//@ noframe
